@@ -329,11 +329,11 @@ func garbage(kind int, q []byte) []byte {
 		return []byte{q[0], q[1], 0x81} // shorter than a header
 	case 1:
 		return []byte{} // nothing
-	case 2: // header announcing a question that is not there
+	case 2: // question name is a compression pointer to nowhere
 		b := make([]byte, 12)
 		copy(b, q[:2])
 		b[2], b[3], b[5] = 0x81, 0x80, 1
-		return b
+		return append(b, 0xC0, 0xFF, 0, 1, 0, 1)
 	case 3: // NOERROR header, truncated inside the question name
 		b := append([]byte(nil), q[:12]...)
 		b[2], b[3] = 0x81, 0x80
@@ -742,7 +742,10 @@ func runCase(cd *caseDesc, fwd *fastforward.Forward, ups []*memUp) *caseRun {
 		if c.wait(w, func() bool { return c.deliveredTotal >= target }) {
 			return true
 		}
-		c.violate("helper-goroutine-stuck", fmt.Sprintf("forward.result.delivered fired %d times %v after %d upstream(s) had returned: a helper goroutine neither delivered nor abandoned its result", c.deliveredTotal, w, target), nil)
+		c.mu.Lock()
+		dt := c.deliveredTotal
+		c.mu.Unlock()
+		c.violate("helper-goroutine-stuck", fmt.Sprintf("forward.result.delivered fired %d times %v after %d upstream(s) had returned: a helper goroutine neither delivered nor abandoned its result", dt, w, target), nil)
 		return false
 	}
 
@@ -806,7 +809,17 @@ func runCase(cd *caseDesc, fwd *fastforward.Forward, ups []*memUp) *caseRun {
 	c.mu.Lock()
 	c.finished = true
 	execErr := c.execErr
+	var stray []*invocation
+	for _, inv := range c.invs {
+		if inv.outcome < 0 {
+			stray = append(stray, inv)
+		}
+	}
 	c.mu.Unlock()
+	for _, inv := range stray { // entered after the script was laid out
+		inv.outcome = oErr
+		inv.rel <- relCmd{outcome: oErr}
+	}
 	if !done {
 		rep.Count("calls_that_never_returned", 1)
 		return c
